@@ -20,9 +20,10 @@ Definition bs_full : bset := N.ones 256.
 Definition bs_compl (s : bset) : bset := N.lxor s bs_full.
 Definition bs_mem (s : bset) (b : Z) : bool := N.testbit s (Z.to_N b).
 
-(* byteRange(a, b): for i := a; i < b; i++ { add(i) }; add(b)
-   (a > b therefore yields {b}) *)
+(* byteRange(a, b): if a > b { return } (empty range);
+   for i := a; i < b; i++ { add(i) }; add(b) *)
 Definition bs_range (a b : Z) : bset :=
+  if b <? a then bs_empty else
   bs_add (fold_left bs_add (map (fun k => a + Z.of_nat k) (seq 0 (Z.to_nat (b - a)))) bs_empty) b.
 
 Definition w4 (w0 w1 w2 w3 : N) : bset :=
